@@ -21,9 +21,8 @@ def parsedPart (s : Array UInt8) : Array UInt8 :=
 def isMangled (s : Array UInt8) : Bool :=
   (parsedPart s).getD 0 0 == 95 && (parsedPart s).getD 1 0 == 90
 
-/-- the initial parser state and environment of `demangle_simple` -/
-def env0 (fx : Fixes) (s : Array UInt8) : Env := { s := parsedPart s, fx := fx }
-def st0 (s : Array UInt8) : St := { pos := 0, len := (parsedPart s).size }
+theorem demangleWith_eq (fx : Fixes) (fuel : Nat) (s : Array UInt8) :
+    demangleWith fx fuel s = demangleCore fx fuel s.toList (globalPrefix.isPrefixOf s.toList) (parsedPart s) := rfl
 
 /-! ## position monotonicity, memory safety of the input side, termination -/
 
@@ -49,12 +48,9 @@ theorem c13_pos_monotone (n : Nat) (f : Fn) (e : Env) (st : St) (hfx : e.fx = Fi
   omega
 
 /-- non-vacuity: the hypotheses hold for the initial state of `demangle_simple` -/
-example (s : Array UInt8) : Need .encoding (env0 Fixes.all s) (st0 s) (8 * ((parsedPart s).size + 1)) := by
-  simp [Need, rank, st0, env0, Env.n]; omega
-
-theorem st0_inv (fx : Fixes) (s : Array UInt8) :
-    (st0 s).len ≤ (env0 fx s).n ∧ (st0 s).pos ≤ (env0 fx s).n ∧ Stop (env0 fx s) (st0 s).len := by
-  refine ⟨Nat.le_refl _, Nat.zero_le _, Or.inl rfl⟩
+example (fx : Fixes) (body : Array UInt8) :
+    Need .encoding { s := body, fx := fx } { pos := 0, len := body.size } (8 * (body.size + 1)) := by
+  simp [Need, rank, Env.n]; omega
 
 theorem parsedPart_size_le (s : Array UInt8) : (parsedPart s).size ≤ s.size := by
   unfold parsedPart
@@ -62,42 +58,38 @@ theorem parsedPart_size_le (s : Array UInt8) : (parsedPart s).size ≤ s.size :=
   · simp
   · exact Nat.le_refl _
 
-/-- **Termination in bounded time, memory safety, totality** (repaired code): with any fuel
-    `≥ 8 * (strlen + 1)` the demangler returns a string: it never reads `old[i]` beyond the NUL
-    (`Crash.oob`), never moves `pos` below 0 (`Crash.negPos`), never hits one of the repaired defects,
-    and never runs out of fuel — the depth of the call/iteration chain is at most `8 * strlen + 8`. -/
-theorem c13_fuel_suffices (s : Array UInt8) (fuel : Nat) (hf : 8 * (s.size + 1) ≤ fuel) :
-    ∃ bs, demangleWith Fixes.all fuel s = .str bs := by
-  have hsz := parsedPart_size_le s
-  unfold demangleWith
-  simp only
+theorem core_total (fuel : Nat) (orig : List UInt8) (hp : Bool) (body : Array UInt8) (hf : 8 * (body.size + 1) ≤ fuel) :
+    ∃ bs, demangleCore Fixes.all fuel orig hp body = .str bs := by
+  unfold demangleCore
   split
   · exact ⟨_, rfl⟩
-  · obtain ⟨h1, h2, h3⟩ := st0_inv Fixes.all s
-    have hrun := run_spec fuel .encoding (env0 Fixes.all s) (st0 s) rfl h1 h2 h3
-      (by simp [Need, rank, st0, env0, Env.n]; omega) (by simp [delta])
+  · have hrun := run_spec fuel .encoding { s := body, fx := Fixes.all } { pos := 0, len := body.size } rfl
+      (Nat.le_refl _) (Nat.zero_le _) (Or.inl rfl) (by simp [Need, rank, Env.n]; omega) (by simp [delta])
     obtain ⟨r, st, hr, p1, p2, p3, p4, _⟩ := hrun
-    have hr' : run fuel Fn.encoding { s := parsedPart s, fx := Fixes.all } { pos := 0, len := (parsedPart s).size } =
-        .ok r st := hr
-    unfold parsedPart at hr'
-    rw [hr']
-    simp only
+    simp only [hr]
     split
     · exact ⟨_, rfl⟩
     · split
       · split <;> exact ⟨_, rfl⟩
       · split
         · exact ⟨_, rfl⟩
-        · have hrun2 := run_spec fuel .name (env0 Fixes.all s) st rfl p1 p2 p3
-            (by simp [Need, rank, env0, Env.n]; omega) (by simp [delta])
+        · have hrun2 := run_spec fuel .name { s := body, fx := Fixes.all } st rfl p1 p2 p3
+            (by simp [Need, rank, Env.n] at *; omega) (by simp [delta])
           obtain ⟨r2, st2, hr2, _⟩ := hrun2
-          have hr2' : run fuel Fn.name { s := parsedPart s, fx := Fixes.all } st = .ok r2 st2 := hr2
-          unfold parsedPart at hr2'
-          rw [hr2']
-          simp only
+          simp only [hr2]
           split
           · exact ⟨_, rfl⟩
           · split <;> exact ⟨_, rfl⟩
+
+/-- **Termination in bounded time, memory safety, totality** (repaired code): with any fuel
+    `≥ 8 * (strlen + 1)` the demangler returns a string: it never reads `old[i]` beyond the NUL
+    (`Crash.oob`), never moves `pos` below 0 (`Crash.negPos`), never hits one of the repaired defects,
+    and never runs out of fuel — the depth of the call/iteration chain is at most `8 * strlen + 8`. -/
+theorem c13_fuel_suffices (s : Array UInt8) (fuel : Nat) (hf : 8 * (s.size + 1) ≤ fuel) :
+    ∃ bs, demangleWith Fixes.all fuel s = .str bs := by
+  rw [demangleWith_eq]
+  have := parsedPart_size_le s
+  exact core_total fuel _ _ _ (by omega)
 
 /-- **Totality**: for every byte string the (repaired) demangler returns a string. -/
 theorem c13_total_returns_string (s : Array UInt8) : ∃ bs, demangle Fixes.all s = .str bs :=
@@ -110,5 +102,105 @@ theorem c13_no_oob (s : Array UInt8) (k : Crash) : demangle Fixes.all s ≠ .cra
   rw [h]
   intro h'
   cases h'
+
+/-! ## fallback to the input -/
+
+/-- **Not a supported mangled name ⇒ unchanged**: a name that (after an optional `_GLOBAL__sub_I_`) does
+    not start with `_Z` comes back unchanged — this covers plain C names, Rust v0 (`_R…`) names, and every
+    choice of repairs and fuel. -/
+theorem c13_unmangled_identity (fx : Fixes) (fuel : Nat) (s : Array UInt8) (h : isMangled s = false) :
+    demangleWith fx fuel s = .str s.toList := by
+  rw [demangleWith_eq]
+  unfold demangleCore
+  unfold isMangled at h
+  split
+  · rfl
+  · rename_i hh
+    rw [h] at hh
+    simp at hh
+
+/-- **Parse error ⇒ the input is returned**: whenever `dd_encoding` fails (`ret < 0`), or leaves
+    `dd.level != 0`, or stops before the end of a name that is not a type-info name, or the trailing
+    `dd_name` fails, the result is the input string itself. -/
+theorem c13_fallback_identity (fx : Fixes) (fuel : Nat) (s : Array UInt8) (r : Int) (st : St)
+    (hrun : run fuel .encoding { s := parsedPart s, fx := fx } { pos := 0, len := (parsedPart s).size } = .ok r st)
+    (hfail : r < 0 ∨ st.level ≠ 0 ∨ (st.pos < st.len ∧ st.typeInfo = false) ∨
+      (st.pos < st.len ∧ ∃ r2 st2, run fuel .name { s := parsedPart s, fx := fx } st = .ok r2 st2 ∧ r2 < 0)) :
+    demangleWith fx fuel s = .str s.toList := by
+  rw [demangleWith_eq]
+  unfold demangleCore
+  split
+  · rfl
+  · simp only [hrun]
+    rcases hfail with h | h | ⟨h1, h2⟩ | ⟨h1, r2, st2, h2, h3⟩
+    · simp [h]
+    · simp [h]
+    · split
+      · rfl
+      · have : ¬ st.pos ≥ st.len := by omega
+        simp [this, h2]
+    · split
+      · rfl
+      · have : ¬ st.pos ≥ st.len := by omega
+        simp only [this, ↓reduceIte]
+        split
+        · rfl
+        · simp [h2, h3]
+
+/-- non-vacuity of `c13_fallback_identity`: `_ZN3fooE3` fails to parse and comes back unchanged -/
+example : demangle Fixes.all #[95, 90, 78, 51, 102, 111, 111] = .str [95, 90, 78, 51, 102, 111, 111] := by decide
+
+/-- a plain identifier: letters, digits, `_`, `$`, `.` that does not start with `_Z` / `_GLOBAL__sub_I__Z` -/
+def isPlain (s : Array UInt8) : Bool := isMangled s == false
+
+/-- **Idempotent on plain names**: demangling a name that is already plain changes nothing; in
+    particular demangling twice equals demangling once for them. -/
+theorem c13_idempotent_on_plain (fx : Fixes) (s : Array UInt8) (h : isPlain s = true) :
+    demangle fx s = .str s.toList ∧ demangle fx s.toList.toArray = .str s.toList := by
+  have h' : isMangled s = false := by simpa [isPlain] using h
+  constructor
+  · exact c13_unmangled_identity fx _ s h'
+  · have : s.toList.toArray = s := by simp
+    rw [this]
+    exact c13_unmangled_identity fx _ s h'
+
+/-- non-vacuity: `main` is plain -/
+example : isPlain #[109, 97, 105, 110] = true := by decide
+
+/-! ## the defects of the tree as it is (`Fixes.none`): one witness per finding -/
+
+/-- F10: `_ZC1v` — a constructor code before any name was emitted: `strrchr(dd->new == NULL, ':')`
+    (`/repo/misc/demangler _ZC1v` segfaults) -/
+theorem c13_prefix_f10_witness : demangle Fixes.none #[95, 90, 67, 49, 118] = .crash .nullDeref := by decide
+
+/-- F10 is the known finding of the design round (same witness, longer name `_ZNC1Ev`) -/
+theorem c13_prefix_ctor_null_witness :
+    demangle Fixes.none #[95, 90, 78, 67, 49, 69, 118] = .crash .nullDeref := by decide
+
+/-- F10b: `_ZT` — `strchr(T_type, '\0')` succeeds and `T_type_name[6]` is read out of bounds -/
+theorem c13_prefix_f10b_witness : demangle Fixes.none #[95, 90, 84] = .crash .tableOob := by decide
+
+set_option maxRecDepth 8000 in
+/-- F10c: `_Z1fD` — `dd_type` returns 0 without consuming the `D`, `dd_encoding` loops forever:
+    the fuel that provably suffices for the repaired code runs out -/
+theorem c13_prefix_f10c_witness : demangle Fixes.none #[95, 90, 49, 102, 68] = .outOfFuel := by decide
+
+/-- F10d: `_Z2147483647x` — `dd->pos + num` overflows `int` (then a 2 GB realloc and exit) -/
+theorem c13_prefix_f10d_witness :
+    demangle Fixes.none #[95, 90, 50, 49, 52, 55, 52, 56, 51, 54, 52, 55, 120] = .crash .intOverflow := by decide
+
+/-- F10e: `_Z3a$C` — the rust mapping `$C` runs past the end of the name and `strchr` reads beyond the NUL -/
+theorem c13_prefix_f10e_witness : demangle Fixes.none #[95, 90, 51, 97, 36, 67] = .crash .oob := by decide
+
+/-- F10g: `_ZUt_` — the parse succeeds without output and `demangle()` returns NULL -/
+theorem c13_prefix_f10g_witness : demangle Fixes.none #[95, 90, 85, 116, 95] = .null := by decide
+
+/-- with the repairs these inputs come back unchanged; `_Z3a$C` becomes `aa$C` (the code re-appends the
+    text before an unmapped `$`, observation F10h — a wrong result, not a memory error, kept as is) -/
+example : demangle Fixes.all #[95, 90, 67, 49, 118] = .str [95, 90, 67, 49, 118] := by decide
+example : demangle Fixes.all #[95, 90, 84] = .str [95, 90, 84] := by decide
+example : demangle Fixes.all #[95, 90, 49, 102, 68] = .str [95, 90, 49, 102, 68] := by decide
+example : demangle Fixes.all #[95, 90, 51, 97, 36, 67] = .str [97, 97, 36, 67] := by decide
+example : demangle Fixes.all #[95, 90, 85, 116, 95] = .str [95, 90, 85, 116, 95] := by decide
 
 end Uft.Demangle
